@@ -199,3 +199,34 @@ Example C03_first_error_location_nonvacuous :
   first_fault SWit.c [] LWit.e_inner (1%Z, 6%Z) /\ snd (check SWit.c LWit.e_inner) = Some ((1%Z, 6%Z), CMismatch2) /\
   first_fault SWit.c [] LWit.e_closure (1%Z, 11%Z) /\ snd (check SWit.c LWit.e_closure) = Some ((1%Z, 11%Z), CTooMany).
 Proof. exact (conj LWit.e_inner_fault (conj LWit.e_inner_reported (conj LWit.e_closure_fault LWit.e_closure_reported))). Qed.
+(* ---- lines to append to Props/C03.v (the file must then be listed AFTER Bridge/BrChecker.v) ---- *)
+(* The model checker Ty/Checker.v is the Go checker as it stands in the source: checker/checker.go and
+   checker/types.go regenerated statement by statement (gen/GenChecker.v), interpreted (Ty/CheckRules.v),
+   compute Checker.check.  Side condition checker_bridge_ok (decidable): config.Expect is not written
+   Some RKInvalid, the tree has no FunctionNode, builtins have their parser shape, callees have signatures
+   Go can produce. *)
+Require Import X.Ty.CheckRules X.Ty.CheckRulesProofs X.gen.GenChecker X.Bridge.BrCheckerRules X.Bridge.BrChecker.
+
+Theorem C03_model_checker_is_source_rules c e :
+  checker_bridge_ok c e = true -> gen_check c checker_src e = Some (Checker.check c e).
+Proof. exact (model_checker_is_source_rules c e). Qed.
+Print Assumptions C03_model_checker_is_source_rules.
+
+Theorem C03_model_visitor_is_source_rules c e cols st :
+  no_function e = true -> bridge_ok c cols e st = true ->
+  gen_visit c checker_src (Ast.esize e) cols e st = Some (Checker.visit c cols e st).
+Proof. exact (model_visitor_is_source_rules c e cols st). Qed.
+Print Assumptions C03_model_visitor_is_source_rules.
+
+(* isInteger ... isFuncType, the package-level types, isIntegerOrArithmeticOperation and
+   setTypeForIntegers, read from types.go, are the model's predicates *)
+Theorem C03_type_predicates_are_source c : sem_ok c (gen_sem c checker_src).
+Proof. exact (gen_sem_ok c). Qed.
+Print Assumptions C03_type_predicates_are_source.
+
+Theorem C03_genchecker_recognised : recognised checker_src = true /\ genchecker_unrecognised = nil.
+Proof. exact genchecker_recognised. Qed.
+
+Example C03_checker_bridge_nonvacuous :
+  checker_bridge_ok BrEx.cfg BrEx.ex_ok = true /\ checker_bridge_ok BrEx.cfg BrEx.ex_bad = true.
+Proof. exact checker_bridge_ok_inhabited. Qed.
